@@ -34,8 +34,8 @@ class Chooser:
         self.points.append((label, n, a)); return a
 
 class Gen:
-    def __init__(self, schema: Schema, seed=0, max_depth=6):
-        self.s = schema; self.seed = seed; self.max_depth = max_depth; self.counter = 0
+    def __init__(self, schema: Schema, seed=0, max_depth=6, skip_ctors=()):
+        self.s = schema; self.seed = seed; self.max_depth = max_depth; self.counter = 0; self.skip_ctors = set(skip_ctors)
     def fill(self, n):
         """distinguishable default value of n bits"""
         self.counter += 1
@@ -116,7 +116,7 @@ class Gen:
         for a in args:
             if s.is_nat_expr(a, env): vals.append(s.nat(a, env))
             else: vals.append((lambda a_, env_: (lambda bb, chh, pp, dd: self.gen(a_, bb, env_, chh, pp, dd)))(a, env))
-        cands = [(d, bnd) for d in s.types[head] for bnd in [s.match_params(d, vals)] if bnd is not None and d['tag'] is not None]
+        cands = [(d, bnd) for d in s.types[head] for bnd in [s.match_params(d, vals)] if bnd is not None and d['tag'] is not None and d['name'] not in self.skip_ctors]
         if not cands: raise TlbError(f'no constructor for {head} {vals}')
         idx = 0
         if len(cands) > 1: idx = ch.choose(path + ':' + head, len(cands)) if depth < self.max_depth else 0
